@@ -1,7 +1,7 @@
 """C18 — settings are validated; no accepted configuration can panic."""
 import itertools, random
 import vlib
-from props import netprops, httpplan, cliplan
+from props import netprops, httpplan, cliplan, sockplan
 
 LEVEL = "proof"
 RULE = ("exhaustive matrix: (read, write, connect) in {None, 0, 1 ns, 1 ms, u64::MAX s}^3 x retries in {0, 1, 2, usize::MAX-1, "
@@ -33,7 +33,8 @@ def run(rep, tier, seed, replay=None):
         for o in httpplan.run(rep, [l for l in replay if httpplan.is_http(l)], "c18hp"):
             httpplan.c18_oracle(rep, o)
         cliplan.run(rep, [l for l in replay if cliplan.is_plan(l)], count="cli-flags")
-        replay = [l for l in replay if not httpplan.is_http(l) and not cliplan.is_plan(l)]
+        sockplan.run(rep, [l for l in replay if sockplan.is_sock(l)], "c18sk", oracles=(sockplan.c18_failures,), count="extreme-durations:sock")
+        replay = [l for l in replay if not httpplan.is_http(l) and not cliplan.is_plan(l) and not sockplan.is_sock(l)]
         if replay:
             vlib.correspond(rep, replay, oracle=netprops.crash_oracle, tag="c18")
         return
@@ -239,7 +240,7 @@ def run(rep, tier, seed, replay=None):
             out.append(("retries-extreme", f"result with an extreme retry count differs: {vlib.result_of(impl)[:120]}"))
         return out
 
-    vlib.correspond(rep, [l for l in netprops.corpus("C18") if not httpplan.is_http(l)] + cases, oracle=oracle, tag="c18")
+    vlib.correspond(rep, [l for l in netprops.corpus("C18") if not httpplan.is_http(l) and not sockplan.is_sock(l)] + cases, oracle=oracle, tag="c18")
     himpl, hpanics = vlib.run_impl(http_lines, tag="c18h") if http_lines else ({}, {})
     for l in http_lines:
         cid = l.split(" ", 1)[0]
@@ -278,5 +279,10 @@ def run(rep, tier, seed, replay=None):
         if not bad and (not out.startswith(("OK ", "ERR ")) or any(not (x.endswith("/T") or x.startswith("E")) for x in out[3:].split(",") if out.startswith("OK "))):
             bad.append(("tiny-timeout:receive", f"a receive returned neither a datagram that was sent nor an error: {out[:160]}"))
         rep.oracle_failures += [(sg, d, l, out[:300]) for sg, d in bad]
+    # socket.rs inside the model: UdpSocketImpl / TcpSocketImpl themselves on real loopback sockets with extreme accepted durations
+    # (u64::MAX s + 999999999 ns, none, 1 ns, no settings), peers that answer / refuse: no panic, and the model's outcome wherever it
+    # cannot depend on scheduling
+    sockplan.run(rep, sockplan.gen_c18(tier) + [l for l in netprops.corpus("C18") if sockplan.is_sock(l)], "c18sk",
+                 oracles=(sockplan.c18_failures,), count="extreme-durations:sock")
     rep.extra_cov["exhaustive"] = True
     rep.extra_cov["explanation"] = "the new/serde matrices are enumerated completely in both tiers; the flag matrix completely in the thorough tier"
